@@ -38,20 +38,12 @@ def requestHeader : Schema := ⟨"RequestHeader", 0x420077, [
   { tag := 0x420092, kind := tDate, card := .opt },        -- time stamp
   { tag := 0x42000D, kind := tInt, card := .one }]⟩        -- batch count
 
-/-- messages.py ResponseHeader l.147-250: the server correlation value is read (l.209-211) and never written -/
+/-- messages.py ResponseHeader (read l.184-217, write l.219-248) -/
 def responseHeader : Schema := ⟨"ResponseHeader", 0x42007A, [
   { tag := 0x420069, kind := .struct, card := .one },
   { tag := 0x420092, kind := tDate, card := .one },
   { tag := 0x420155, kind := tBytes, card := .opt, vmin := 20 },       -- server hashed password, KMIP 2.0
-  { tag := 0x420106, kind := tText, card := .opt, writes := false },   -- server correlation value
-  { tag := 0x42000D, kind := tInt, card := .one }]⟩
-
-/-- the same with the writer repaired (notes/proposed_fixes/C01-response-header-server-correlation-value.diff) -/
-def responseHeaderRepaired : Schema := ⟨"ResponseHeader", 0x42007A, [
-  { tag := 0x420069, kind := .struct, card := .one },
-  { tag := 0x420092, kind := tDate, card := .one },
-  { tag := 0x420155, kind := tBytes, card := .opt, vmin := 20 },
-  { tag := 0x420106, kind := tText, card := .opt },
+  { tag := 0x420106, kind := tText, card := .opt },                    -- server correlation value
   { tag := 0x42000D, kind := tInt, card := .one }]⟩
 
 /-- messages.py RequestBatchItem l.252-348 -/
@@ -183,8 +175,15 @@ def keyWrappingSpecification : Schema := ⟨"KeyWrappingSpecification", 0x420047
   { tag := 0x42000A, kind := tText, card := .many },                   -- attribute names
   { tag := 0x4200A3, kind := tEnum, card := .opt }]⟩                   -- encoding option
 
+/-- payloads/create_key_pair.py response: the template attributes exist below KMIP 2.0 only (reader and writer) -/
+def createKeyPairResponse : Schema := ⟨"CreateKeyPairResponsePayload", 0x42007C, [
+  { tag := 0x420066, kind := tText, card := .one },                    -- private key unique identifier
+  { tag := 0x42006F, kind := tText, card := .one },                    -- public key unique identifier
+  { tag := 0x420065, kind := .struct, card := .opt, vmax := 14 },      -- private key template attribute
+  { tag := 0x42006E, kind := .struct, card := .opt, vmax := 14 }]⟩     -- public key template attribute
+
 def schemas : List Schema := [
-  getRequest, getAttributeListRequest, getAttributesRequest, getAttributesResponse, createRequest, createResponse,
+  createKeyPairResponse, getRequest, getAttributeListRequest, getAttributesRequest, getAttributesResponse, createRequest, createResponse,
   templateAttribute, credential, usernamePasswordCredential, name, encryptionKeyInformation,
   keyWrappingSpecification,
   protocolVersion, requestHeader, responseHeader, requestBatchItem, responseBatchItem, requestMessage,
